@@ -205,6 +205,13 @@ fn main() {
                 // sequence wrap-around window 1023, 0, 1 and a start with unacked chunks
                 cfgs.push(Cfg { prefix_chunks: 1022, vsends: [2, 1], drops: 1, dups: 1, advances: 1, ..base.clone() });
                 cfgs.push(Cfg { prefix_chunks: 1, prefix_unacked: 2, vsends: [1, 0], drops: 1, dups: 1, advances: 2, ..base.clone() });
+                // a duplicate of each side's very first vital datagram is still in flight; together
+                // with the chunks sent during exploration it is delayed across at most 1023 sequence
+                // numbers (1024 is the protocol's limit and excluded by the property's assumption)
+                cfgs.push(Cfg { prefix_chunks: 1023, prefix_stale: true, vsends: [0, 0], nsends: [1, 0], drops: 0, dups: 0, advances: 1, ..base.clone() });
+                cfgs.push(Cfg { prefix_chunks: 1022, prefix_stale: true, vsends: [1, 1], drops: 0, dups: 0, advances: 1, ..base.clone() });
+                cfgs.push(Cfg { prefix_chunks: 511, prefix_stale: true, vsends: [1, 0], drops: 0, dups: 0, advances: 0, ..base.clone() });
+                cfgs.push(Cfg { prefix_chunks: 512, prefix_stale: true, vsends: [1, 0], drops: 0, dups: 0, advances: 0, ..base.clone() });
             }
             Tier::Thorough => {
                 cfgs.push(Cfg { vsends: [3, 0], drops: 1, dups: 1, ..base.clone() });
@@ -213,10 +220,13 @@ fn main() {
                 cfgs.push(Cfg { prefix_chunks: 1021, vsends: [3, 1], drops: 1, dups: 1, advances: 2, ..base.clone() });
                 cfgs.push(Cfg { prefix_chunks: 1, prefix_unacked: 3, vsends: [1, 1], drops: 2, dups: 1, advances: 2, ..base.clone() });
                 cfgs.push(Cfg { vsends: [2, 0], drops: 1, dups: 1, advances: 3, steps: vec![250_000], ..base.clone() });
+                cfgs.push(Cfg { prefix_chunks: 1021, prefix_stale: true, vsends: [2, 1], drops: 1, dups: 1, advances: 1, ..base.clone() });
+                cfgs.push(Cfg { prefix_chunks: 1022, prefix_stale: true, vsends: [1, 1], drops: 1, dups: 1, advances: 2, ..base.clone() });
             }
         }
     }
     for cfg in cfgs {
+        assert!(!cfg.prefix_stale || cfg.prefix_chunks as usize + cfg.vsends[0].max(cfg.vsends[1]) as usize <= 1023, "a stale duplicate must stay within 1023 sequence numbers");
         // depth-first search for the large configurations: same state set, far less memory
         let dfs = run.tier == Tier::Thorough && (cfg.prefix_chunks > 1000 || cfg.vsends[0] + cfg.vsends[1] >= 3);
         let o = vp_net::explore_variant(cfg, &run, dfs);
